@@ -62,7 +62,10 @@ func createRfIndex(r *rangeParameters) (*rfIndex, error) {
 		}
 	}
 
-	if rf.start > 0 && !r.Exclude {
+	// Start() and End() both advance rf.i on the element that starts an
+	// inclusive range, so the end has to be pushed out by one whenever an
+	// explicit, non-negative start is given (including `0`).
+	if r.Start != "" && rf.start >= 0 && !r.Exclude {
 		rf.end++
 	}
 
